@@ -45,7 +45,7 @@
  "name": "ino_cmp_order_full",
  "props": ["C05", "C10"],
  "level": "U",
- "tier": "wip",
+ "tier": "quick",
  "harness": "h_ino_order",
  "enforce": ["ino_cmp"],
  "includes": ["e2fsck", "lib/support"],
@@ -79,7 +79,7 @@
  "name": "ino_cmp_lemmas_full",
  "props": ["C05", "C10"],
  "level": "U",
- "tier": "wip",
+ "tier": "quick",
  "harness": "h_ino_lemmas",
  "includes": ["e2fsck", "lib/support"],
  "unwind": 10,
@@ -113,7 +113,7 @@
  "name": "name_cmp_order_full",
  "props": ["C05", "C10"],
  "level": "U/k",
- "tier": "wip",
+ "tier": "quick",
  "harness": "h_name_order",
  "enforce": ["name_cmp"],
  "includes": ["e2fsck", "lib/support"],
